@@ -615,6 +615,69 @@ theorem polyval_scalar_spec (p0 : PyVal α) (ps : List (PyVal α)) (x : PyVal α
   · intro hn
     simp only [polyval, unitOf, hlast, hlen, c2 hn]
 
+/-- Horner homogeneity at an arbitrary physical argument `X` -/
+theorem plainPolyval_homogeneous (ux uy : PyVal α) (hx : ux.WF) (hy : uy.WF) (ha : ux.si ≠ 0) (hb : uy.si ≠ 0)
+    (p0 : PyVal α) (ps : List (PyVal α)) (X : α) :
+    plainPolyval (coeffsSpec ux uy ps.length 0 (p0 :: ps)) (X / ux.si) * uy.si = plainPolyval ((p0 :: ps).map PyVal.si) X := by
+  have := horner_homogeneous ux uy hx hy ha hb ps.length X (p0 :: ps) 0 0 0 (by simp)
+  simp only [plainPolyval, Nat.cast_zero] at this ⊢
+  rw [this]
+  have e : (((0 + (p0 :: ps).length : ℕ) : ℤ) - 1 - ((ps.length : ℕ) : ℤ)) = 0 := by
+    simp only [List.length_cons]; push_cast; ring
+  rw [e]; simp; ring
+
+/-- `polyval(p, x)` for a list/array `x`: every element is evaluated like a scalar — the physical values of the result are the
+    polynomial of the physical coefficients at the physical arguments; abscissae of mixed dimension or coefficients of the
+    wrong dimension raise ValueError -/
+theorem polyval_list_spec (p0 : PyVal α) (ps : List (PyVal α)) (x0 : PyVal α) (xt : List (PyVal α))
+    (hp : ∀ v ∈ p0 :: ps, v.WF) (hxw : ∀ a ∈ x0 :: xt, a.WF) :
+    (coeffsCompat (unitOfScalar x0) (unitOfScalar ((p0 :: ps).getLast (by simp))) ps.length 0 (p0 :: ps) →
+      ((∀ a ∈ xt, a.dims = x0.dims) →
+        ∃ r, polyval (p0 :: ps) (.list (x0 :: xt)) = .ok r ∧
+          r.map PyVal.si = (x0 :: xt).map (fun x => plainPolyval ((p0 :: ps).map PyVal.si) x.si) ∧
+          ∀ v ∈ r, v.dims = ((p0 :: ps).getLast (by simp)).dims) ∧
+      ((∃ a ∈ xt, a.dims ≠ x0.dims) → polyval (p0 :: ps) (.list (x0 :: xt)) = .error .valueError)) ∧
+    (¬ coeffsCompat (unitOfScalar x0) (unitOfScalar ((p0 :: ps).getLast (by simp))) ps.length 0 (p0 :: ps) →
+      polyval (p0 :: ps) (.list (x0 :: xt)) = .error .valueError) := by
+  have hplw : ((p0 :: ps).getLast (by simp)).WF := hp _ (List.getLast_mem _)
+  have hux := unitOfScalar_wf (hxw x0 (by simp))
+  have huy := unitOfScalar_wf hplw
+  have ha := unitOfScalar_si_ne (hxw x0 (by simp))
+  have hb := unitOfScalar_si_ne hplw
+  have hud := unitOfScalar_dims x0
+  have hlast : (p0 :: ps).getLast? = some ((p0 :: ps).getLast (by simp)) := by
+    simp [List.getLast?_eq_some_getLast]
+  have hlen : (p0 :: ps).length - 1 = ps.length := by simp
+  obtain ⟨c1, c2⟩ := polyvalCoeffs_spec (unitOfScalar x0) (unitOfScalar ((p0 :: ps).getLast (by simp))) hux huy ps.length 0 (p0 :: ps) hp
+  obtain ⟨f1, f2⟩ := toUnitlessFlat_spec (x0 :: xt) (unitOfScalar x0) hxw hux
+  refine ⟨fun hc => ⟨?_, ?_⟩, ?_⟩
+  · intro hx
+    have hall : ∀ a ∈ x0 :: xt, a.dims = (unitOfScalar x0).dims := by
+      intro a ha'
+      rcases List.mem_cons.mp ha' with rfl | ha'
+      · exact hud.symm
+      · rw [hud]; exact hx a ha'
+    have hpv : polyval (p0 :: ps) (.list (x0 :: xt)) = .ok
+        (((x0 :: xt).map fun a => a.si / (unitOfScalar x0).si).map fun x =>
+          timesUnit (plainPolyval (coeffsSpec (unitOfScalar x0) (unitOfScalar ((p0 :: ps).getLast (by simp))) ps.length 0 (p0 :: ps)) x)
+            (unitOfScalar ((p0 :: ps).getLast (by simp)))) := by
+      simp only [polyval, hlast, hlen, c1 hc, f1 hall]
+    refine ⟨_, hpv, ?_, ?_⟩
+    · rw [List.map_map, List.map_map]
+      apply List.map_congr_left
+      intro a _
+      simp only [Function.comp, timesUnit_si]
+      exact plainPolyval_homogeneous _ _ hux huy ha hb p0 ps a.si
+    · intro v hv
+      simp only [List.mem_map] at hv
+      obtain ⟨y, ⟨a, _, rfl⟩, rfl⟩ := hv
+      rw [timesUnit_dims, unitOfScalar_dims]
+  · rintro ⟨a, ha', hne⟩
+    have := f2 ⟨a, by simp [ha'], by rw [hud]; exact hne⟩
+    simp only [polyval, hlast, hlen, c1 hc, this]
+  · intro hn
+    simp only [polyval, hlast, hlen, c2 hn]
+
 /-! ### polyfit: unit assignment -/
 
 /-- `polyfit`: `np.polyfit` (`fit`, a parameter) runs on the magnitudes in the units of `x[0]` and `y[0]`; coefficient `i` of its
@@ -1065,6 +1128,94 @@ theorem toUnitless_iterable (l : List (Val α)) (u : PyVal α) (hu : u.WF) :
         intro h; apply hd; apply hdivd.mp; rw [hv]; exact h
       simp [rescale, quantitiesRescale, Quantity.dimensionless, this, Except.map]
 
+/-! ### round 10: the parser hypothesis of the human-readable round trip, discharged on the extracted table -/
+
+/-- for every standard prefixed unit the unit-string parser returns exactly that unit object (finite generated table) -/
+theorem hrLookup_standard :
+    ∀ p ∈ (standardUnits : List (Nat × SymUnit ℚ)), hrLookup p.2.symbol = some [(p.2, 1)] := by
+  decide +kernel
+
+/-- every standard prefixed unit belongs to the base dimension of its registry key and has a positive factor -/
+theorem standardUnits_wf :
+    ∀ p ∈ (standardUnits : List (Nat × SymUnit ℚ)), p.2.unit.dims = Dims.basis p.1 ∧ 0 < p.2.unit.factor ∧ p.1 < nDims := by
+  decide +kernel
+
+/-- closed form of the round trip: registries of standard prefixed units (any factor) and `1` entries -/
+theorem human_roundtrip_standard (reg : List (RegEntry ℚ))
+    (h : ∀ e ∈ reg, e = .num 1 ∨ ∃ mag p, p ∈ (standardUnits : List (Nat × SymUnit ℚ)) ∧ e = .q mag [(p.2, 1)]) :
+    ∃ hs, toHuman reg = .ok hs ∧ fromHuman hrLookup hs = .ok reg := by
+  have hex : ∀ e ∈ reg, e = .num 1 ∨ ∃ mag u, e = .q mag [(u, 1)] ∧ (hrLookup : String → _) u.symbol = some [(u, 1)] := by
+    intro e he
+    rcases h e he with h1 | ⟨mag, p, hp, rfl⟩
+    · exact Or.inl h1
+    · exact Or.inr ⟨mag, p.2, rfl, hrLookup_standard p hp⟩
+  have hok : ∀ e ∈ reg, HRok (hrLookup : String → _) e := by
+    intro e he
+    rcases hex e he with h1 | ⟨mag, u, rfl, hl⟩
+    · exact Or.inl h1
+    · exact Or.inr ⟨mag, u, u, rfl, hl, rfl⟩
+  obtain ⟨hs, reg', h1, h2, _, h4⟩ := human_roundtrip hrLookup reg hok
+  exact ⟨hs, h1, by rw [h2, h4 hex]⟩
+
+/-- which exception wins: the FIRST failing element in iteration order (the elements before it convert) -/
+theorem toUnitlessFlat_first_error (pre post : List (PyVal α)) (v u : PyVal α) (e : Err)
+    (hpre : ∀ a ∈ pre, ∃ x, toUnitlessScalar a u = .ok x) (hv : toUnitlessScalar v u = .error e) :
+    toUnitlessFlat (pre ++ v :: post) u = .error e := by
+  induction pre with
+  | nil => simp [toUnitlessFlat, hv]
+  | cons a r ih =>
+    obtain ⟨x, hx⟩ := hpre a (by simp)
+    simp [toUnitlessFlat, hx, ih (fun b hb => hpre b (by simp [hb]))]
+
+/-! ### round 11: Backend / _wrap_numpy with container arguments -/
+
+/-- the wrapped function is reached iff EVERY argument (scalar or container) converts to plain numbers; it then receives exactly those -/
+theorem backendCallV_ok_iff {β : Type} (f : List (Res α) → β) (args : List (Val α)) (y : β) :
+    backendCallV f args = .ok y ↔
+      ∃ rs, List.Forall₂ (fun v r => toUnitless v (.qty Quantity.dimensionless) = .ok r) args rs ∧ y = f rs := by
+  unfold backendCallV
+  cases h : toUnitlessList args (.qty (Quantity.dimensionless : Quantity α)) with
+  | error e =>
+    simp only [reduceCtorEq, false_iff]
+    rintro ⟨rs, hf, _⟩
+    rw [← toUnitlessList_ok_iff, h] at hf; simp at hf
+  | ok rs =>
+    simp only [Except.ok.injEq]
+    constructor
+    · rintro rfl; exact ⟨rs, (toUnitlessList_ok_iff _ _ _).mp h, rfl⟩
+    · rintro ⟨rs', hf, rfl⟩
+      rw [← toUnitlessList_ok_iff, h] at hf
+      simp only [Except.ok.injEq] at hf; rw [hf]
+
+/-- a list/array argument: converted element-wise when every element is dimensionless, ValueError as soon as one carries a dimension -/
+theorem toUnitless_list_atoms_dimensionless (l : List (PyVal α)) (hl : ∀ a ∈ l, a.WF) :
+    ((∀ a ∈ l, a.dims = Dims.zero) →
+      toUnitless (.list (l.map Val.atom)) (.qty Quantity.dimensionless) = .ok (.list (l.map fun a => Res.num a.si))) ∧
+    ((∃ a ∈ l, a.dims ≠ Dims.zero) → toUnitless (.list (l.map Val.atom)) (.qty Quantity.dimensionless) = .error .valueError) := by
+  have hdl := dimensionless_wf (α := α)
+  have hds : (PyVal.qty (Quantity.dimensionless : Quantity α)).si = 1 := by simp [Quantity.dimensionless, Unit.one]
+  obtain ⟨f1, f2⟩ := toUnitlessFlat_spec l (.qty Quantity.dimensionless) hl hdl
+  constructor
+  · intro h
+    rw [toUnitless_list, toUnitlessList_atoms, f1 (fun a ha => by rw [h a ha]; rfl)]
+    simp [Except.map, List.map_map, Function.comp, hds]
+  · rintro ⟨a, ha, hne⟩
+    rw [toUnitless_list, toUnitlessList_atoms, f2 ⟨a, ha, fun h => hne (h.trans rfl)⟩]
+    rfl
+
+/-- a failing argument makes the call fail with that argument's exception, provided the arguments before it convert -/
+theorem backendCallV_error {β : Type} (f : List (Res α) → β) (pre post : List (Val α)) (v : Val α) (e : Err)
+    (hpre : ∀ a ∈ pre, ∃ r, toUnitless a (.qty Quantity.dimensionless) = .ok r)
+    (hv : toUnitless v (.qty Quantity.dimensionless) = .error e) :
+    backendCallV f (pre ++ v :: post) = .error e := by
+  have : toUnitlessList (pre ++ v :: post) (.qty (Quantity.dimensionless : Quantity α)) = .error e := by
+    induction pre with
+    | nil => simp [toUnitlessList, hv]
+    | cons a r ih =>
+      obtain ⟨x, hx⟩ := hpre a (by simp)
+      simp [toUnitlessList, hx, ih (fun b hb => hpre b (by simp [hb]))]
+  simp [backendCallV, this]
+
 /-! ### round 9: composition and scaling for containers -/
 
 theorem forall₂_map_right {β γ δ : Type} {R : β → γ → Prop} {R' : β → δ → Prop} (f : γ → δ) {l : List β} {xs : List γ}
@@ -1291,6 +1442,12 @@ theorem allcloseTriples_atol_longer (x y : PyVal β) (ts : List (PyVal β)) (hts
   · simp only [allcloseTriples, broadcastLen, ArrArg.len?, ArrArg.expand, Option.getD_none, List.replicate_one, List.zip_cons_cons,
       List.zip_nil_right, List.any_cons, List.any_nil, hx, ne_eq, not_true_eq_false, decide_false, Bool.or_self, Bool.false_eq_true,
       if_false, Option.getD_some, her, hex]
+
+/-- `allclose` on plain numbers (no units anywhere): the plain test, with or without `atol` -/
+theorem allcloseScalar_plain (x y rtol t : β) :
+    allcloseScalar (.num x) (.num y) rtol none = .ok (decide (|x - y| ≤ |x| * rtol)) ∧
+    allcloseScalar (.num x) (.num y) rtol (some (.num t)) = .ok (decide (|x - y| ≤ |x| * rtol + t)) := by
+  constructor <;> simp [allcloseScalar, addLike, PyVal.asQuantity, Unit.one, absv_eq]
 
 end Ordered
 
